@@ -183,7 +183,7 @@ func (t *c01Template) instantiate(seed int64) (*menv.Env, error) {
 
 type c01Op struct {
 	name string
-	kind string // swap | melt | check
+	kind string // swap | melt | check | poll | premelt
 	melt int    // which melt quote
 }
 
@@ -208,13 +208,26 @@ func c01RunSchedule(r *core.Run, t *c01Template, ops []c01Op, plan lnmodel.PayPl
 	for i := 0; i < 2; i++ {
 		env.Node.PlanPay(t.meltH[i], plan)
 	}
+	out := &c01Outcome{results: make([]string, len(ops))}
+	// sequential pre-steps: a melt that Lightning leaves in flight and then completes
+	// (success or failure per plan.Truth) without the mint having looked yet
+	for i, op := range ops {
+		if op.kind == "premelt" {
+			env.Node.PlanPay(t.meltH[op.melt], lnmodel.PayPlan{Answer: lnmodel.APending, Truth: lnmodel.InFlight})
+			q, err := env.Melt(t.meltQ[op.melt], cashu.Proofs{t.coin})
+			out.results[i] = fmt.Sprintf("premelt:%v:%v", q.State, err)
+			env.World.Resolve("m0", t.meltH[op.melt], plan.Truth != lnmodel.Failed)
+		}
+	}
 	sc := sched.New(prefix)
 	sc.Pick = pickFn
 	env.Hub.SetController(sc)
-	out := &c01Outcome{results: make([]string, len(ops))}
 	var mu sync.Mutex
 	for i, op := range ops {
 		i, op := i, op
+		if op.kind == "premelt" {
+			continue
+		}
 		outs := client.Outputs(rng, t.ksId, []uint64{64})
 		sc.Go(env.Hub, op.name, func() {
 			switch op.kind {
@@ -236,6 +249,11 @@ func c01RunSchedule(r *core.Run, t *c01Template, ops []c01Op, plan lnmodel.PayPl
 				} else {
 					out.results[i] = "melt:err:" + err.Error()
 				}
+				mu.Unlock()
+			case "poll":
+				q, err := env.MeltQuoteState(t.meltQ[op.melt])
+				mu.Lock()
+				out.results[i] = fmt.Sprintf("poll:%v:%v", q.State, err)
 				mu.Unlock()
 			case "check":
 				st, err := env.CheckState([]string{refcrypto.YHex(t.coin.Secret)})
@@ -343,8 +361,16 @@ func c01Pairs(r *core.Run) {
 		{"swap|swap", []c01Op{{"A", "swap", 0}, {"B", "swap", 0}}, succ},
 		{"swap|melt", []c01Op{{"A", "swap", 0}, {"B", "melt", 0}}, succ},
 	}
+	settled := lnmodel.PayPlan{Answer: lnmodel.APending, Truth: lnmodel.Succeeded}
+	scens = append(scens,
+		// a pending melt whose payment has meanwhile succeeded is settled by a poll / a state check while a swap of the same proof runs
+		scen{"swap|poll-settles-pending-melt", []c01Op{{"P", "premelt", 0}, {"A", "swap", 0}, {"B", "poll", 0}}, settled},
+		scen{"swap|checkstate-settles-pending-melt", []c01Op{{"P", "premelt", 0}, {"A", "swap", 0}, {"B", "check", 0}}, settled},
+	)
 	if !quick(r) {
 		scens = append(scens,
+			scen{"swap|poll-releases-pending-melt", []c01Op{{"P", "premelt", 0}, {"A", "swap", 0}, {"B", "poll", 0}}, lnmodel.PayPlan{Answer: lnmodel.APending, Truth: lnmodel.Failed}},
+			scen{"melt|poll-releases-pending-melt", []c01Op{{"P", "premelt", 0}, {"A", "melt", 1}, {"B", "poll", 0}}, lnmodel.PayPlan{Answer: lnmodel.APending, Truth: lnmodel.Failed}},
 			scen{"melt|melt", []c01Op{{"A", "melt", 0}, {"B", "melt", 1}}, succ},
 			scen{"swap|melt", []c01Op{{"A", "swap", 0}, {"B", "melt", 0}}, lnmodel.PayPlan{Answer: lnmodel.APending, Truth: lnmodel.InFlight}},
 			scen{"swap|melt", []c01Op{{"A", "swap", 0}, {"B", "melt", 0}}, lnmodel.PayPlan{Answer: lnmodel.AFailed}},
@@ -361,7 +387,9 @@ func c01Pairs(r *core.Run) {
 		}
 		names := []string{}
 		for _, o := range sc.ops {
-			names = append(names, o.name)
+			if o.kind != "premelt" {
+				names = append(names, o.name)
+			}
 		}
 		var seq int64
 		var mu sync.Mutex
